@@ -240,6 +240,13 @@ func c10gen(cw *caseWriter, tier string, r *rng) {
 			return [][]uint64{evAppend(3, 3, 3, 1, 1, e1, 4, 0, nil), evInstall(3, 3, 3, 6, 3, cfg4, 4, []uint64{302, 303, 305, 306}, false, 0, nil),
 				evSnapshot(0, nil), evAppend(3, 3, 3, 6, 3, [][4]uint64{mk(7, 3, 0, 307)}, 7, 0, nil), evSnapshot(0, nil)}
 		}, []int{1, 3, 2, 1, 2}},
+		{"install-older-then-take-snapshot", func(uint64) [][]uint64 {
+			// a late InstallSnapshot BELOW what the server has applied (entries through 6 applied, snapshot of index 3; the clean
+			// tree installs it - finding F12 - and records 3 everywhere): the snapshot taken next must carry the index of what the
+			// FSM now holds, not an index the restore skipped over
+			return [][]uint64{evAppend(3, 3, 3, 1, 1, e1, 4, 0, nil), evAppend(3, 3, 3, 4, 3, e2, 6, 0, nil),
+				evInstall(3, 3, 3, 3, 3, cfgSAB, 1, []uint64{302, 303}, false, 0, nil), evSnapshot(0, nil)}
+		}, []int{1, 1, 3, 2}},
 		{"noop-only-commit-then-take-snapshot", func(uint64) [][]uint64 {
 			// the commit index moves over a no-op only: nothing reaches the FSM goroutine, its last index stays at 2, lastApplied is 3;
 			// then a command between two no-ops: FSM index 5, lastApplied 6. (No barriers here: a batch holding only a barrier moves the
@@ -448,6 +455,8 @@ func c10images2(cw *caseWriter, tier string, tabs [][]srv) int {
 
 func runC10(cw *caseWriter, tier string, seed uint64) {
 	c10gen(cw, tier, &rng{s: seed})
+	// the term a restart resumes with is the durable one: candidate sessions compare the term the server acts in with its stable store
+	runC14cand(cw, tier, &rng{s: seed*43 + 11})
 }
 
 // C02: FSM streams. Node level: the crash/restart sequences above (every FSM call is in the
@@ -455,6 +464,7 @@ func runC10(cw *caseWriter, tier string, seed uint64) {
 func runC02(cw *caseWriter, tier string, seed uint64) {
 	r := &rng{s: seed}
 	c10gen(cw, tier, r)
+	c04gen(cw, tier, &rng{s: seed*53 + 7}) // the handler's truncation and acceptance cases with store failures (what the FSM is later handed rests on them)
 	if tier == "quick" {
 		runScenarios(cw, 1, seed*100000, 100, 12)
 		runScenarios(cw, 7, seed*100000, 40, 12)
